@@ -1,7 +1,7 @@
 (* Router/PrefetchCost.v — what a client is CHARGED (resource limiter, app/router/limiter.go) for its queries,
    and that a background refresh (asyncSingleFlightPrefetch / doPrefetch) is charged to nobody.  C19: "the hit is
    answered immediately from cache", "a failed refresh leaves the old entry usable": the prefetch must be invisible
-   to the hit path — also to the budget that admits the client's next hit.
+   to the hit path — also to the budget that lets in the client's next hit.
 
      listener:   Accept / OnOpen     limiterAllowN(peer,   costTCPConn = 3)     refused -> the connection is closed
      server:     per query           limiterAllowN(client, costUDPQuery = 1 | costTCPQuery = 2 | costHTTPQuery = 2)
